@@ -180,14 +180,23 @@ def run_step(w: World, op: dict, *, probes=None, index_every=True) -> StepResult
             if removed:
                 for i in plan.slots[:1]:
                     w.mark_removed(i, removed)
-            if struct_ok:
-                ok = True
-                for i in live:
-                    if w.slots[i] is None:
-                        continue
-                    ok &= guard(compare_slot, w, i, plan.owner, plan.trigger)
-                if ok and plan.after is not None:
-                    guard(plan.after, result)
+            ok = True
+            for i in live:
+                if w.slots[i] is None:
+                    continue
+
+                def _cmp(i=i):
+                    try:
+                        compare_slot(w, i, plan.owner, plan.trigger)
+                    except Violation:
+                        raise
+                    except Exception:  # noqa: BLE001 - unreadable tree: C01 reported it
+                        if struct_ok:
+                            raise
+
+                ok &= guard(_cmp)
+            if ok and struct_ok and plan.after is not None:
+                guard(plan.after, result)
 
     # C02 owns the data_id rule (explicit id, else id callback, else hash)
     for v in list(viol):
